@@ -10,6 +10,7 @@ import (
 	"fmt"
 	"math/rand"
 	"os"
+	"reflect"
 	"sort"
 	"sync"
 
@@ -294,6 +295,10 @@ func (e *Env) dataCase(r *rand.Rand, id int) map[string]interface{} {
 	add("hijack-create-returns-stored", err == nil && eq(stripServer(created), stripServer(got)))
 	add("hijack-read-back-equal", err == nil && eq(stripServer(got), stripServer(want)))
 	add("hijack-read-back-apiVersion", err == nil && got.APIVersion == "apps/v1")
+	// independent of the defaulting code: whatever the caller set explicitly comes back as it was set
+	subm := sts.DeepCopy()
+	subm.Status = kubeapps.StatefulSetStatus{}
+	add("hijack-read-back-keeps-explicit-fields", err == nil && explicitKept(jsonTree(subm), jsonTree(stripServer(got)), ""))
 	// status through the subresource
 	withStatus := got.DeepCopy()
 	withStatus.Status = sts.Status
@@ -325,6 +330,57 @@ func (e *Env) dataCase(r *rand.Rand, id int) map[string]interface{} {
 	}
 	add("hijack-list", okList)
 	return map[string]interface{}{"kind": "data", "id": id, "checks": checks}
+}
+
+func jsonTree(o interface{}) interface{} {
+	b, _ := json.Marshal(o)
+	var t interface{}
+	json.Unmarshal(b, &t)
+	return t
+}
+
+// explicitKept: every value present in want (what the caller submitted; empty collections, empty strings, zeros and nulls
+// do not count as set) is present and equal in got (what was read back, which may carry defaults in addition).
+func explicitKept(want, got interface{}, path string) bool {
+	switch w := want.(type) {
+	case nil:
+		return true
+	case map[string]interface{}:
+		if len(w) == 0 {
+			return true
+		}
+		g, ok := got.(map[string]interface{})
+		if !ok {
+			return false
+		}
+		for k, v := range w {
+			if !explicitKept(v, g[k], path+"."+k) {
+				return false
+			}
+		}
+		return true
+	case []interface{}:
+		if len(w) == 0 {
+			return true
+		}
+		g, ok := got.([]interface{})
+		if !ok || len(g) != len(w) {
+			return false
+		}
+		for i := range w {
+			if !explicitKept(w[i], g[i], path) {
+				return false
+			}
+		}
+		return true
+	case string:
+		return w == "" || got == want
+	case float64:
+		return w == 0 || got == want
+	case bool:
+		return !w || got == want
+	}
+	return reflect.DeepEqual(want, got)
 }
 
 func stripTypeMeta(s *kubeapps.StatefulSet) *kubeapps.StatefulSet {
